@@ -190,7 +190,17 @@ def parse_with_formats(date_string, date_formats, settings):
     period = "day"
     for date_format in date_formats:
         try:
-            date_obj = datetime.strptime(date_string, date_format)
+            if "%y" in date_format or "%Y" in date_format:
+                date_obj = datetime.strptime(date_string, date_format)
+            else:
+                # strptime reads a format without a year in 1900; read it in the
+                # current year instead, so that a day of the year (%j) and
+                # 29 February resolve in the right calendar, and the year is
+                # known before a missing day is filled in
+                today = datetime.today()
+                date_obj = datetime.strptime(
+                    "{} {:04d}".format(date_string, today.year), date_format + " %Y"
+                )
         except ValueError:
             continue
         else:
@@ -199,11 +209,6 @@ def parse_with_formats(date_string, date_formats, settings):
                     _check_strict_parsing(_get_missing_parts(date_format), settings)
                 except ValueError:
                     continue
-            # the year must be known before a missing day is filled in:
-            # the last day of February depends on it
-            if not ("%y" in date_format or "%Y" in date_format):
-                today = datetime.today()
-                date_obj = date_obj.replace(year=today.year)
 
             missing_month = not any(
                 m in date_format for m in ["%m", "%b", "%B", "%j"]
